@@ -245,6 +245,28 @@ Definition render_task (ts : task_spec) (ctx : dict) : M (list action_spec) :=
 
 Definition exn_key (k : string) : exn := mkexn "KeyError" ("'" ++ k ++ "'").
 
+(* _evaluate_task_actions: trim the item actions per the concurrency policy.  Input: the rendered
+   item actions zipped with the recorded item statuses; output: the actions to offer now and the
+   effective concurrency value reported with the offer. *)
+Definition items_notrun {A} (all_items : list (A * status)) : list (A * status) :=
+  filter (fun '(_, st) => status_eqb st S_UNSET) all_items.
+Definition items_nactive {A} (all_items : list (A * status)) : nat :=
+  length (filter (fun '(_, st) => status_in st ACTIVE_STATUSES) all_items).
+Definition effective_concurrency (conc : json) : Z :=
+  let k := py_int_value conc in if Z.leb k 0 then 1%Z else k.
+
+Definition choose_items {A} (conc : json) (all_items : list (A * status)) : result (list A * json) :=
+  let notrun := items_notrun all_items in
+  match conc with
+  | JNull => Val (map fst notrun, conc)
+  | JInt _ | JBool _ =>
+      let k' := effective_concurrency conc in
+      let avail := (k' - Z.of_nat (items_nactive all_items))%Z in
+      Val (if Z.ltb 0 avail then map fst (firstn (Z.to_nat avail) notrun) else [],
+           match conc with JInt _ => JInt k' | _ => if Z.leb (py_int_value conc) 0 then JInt 1 else conc end)
+  | _ => Exc (exn_type "'<=' not supported between instances of concurrency value and 'int'")
+  end.
+
 (* get_task + _evaluate_task_actions + the retry delay override, for one staged entry.
    None: the task is not returned (no action to run now). *)
 Definition next_task_for (s : stg) : M (option offer) :=
@@ -298,19 +320,7 @@ Definition next_task_for (s : stg) : M (option offer) :=
                            ret fresh
                        end
                    end) ;;
-      let all_items := combine actions st_items in
-      let notrun := filter (fun '(_, st) => status_eqb st S_UNSET) all_items in
-      let nactive := length (filter (fun '(_, st) => status_in st ACTIVE_STATUSES) all_items) in
-      chosen <- (match conc with
-                 | JNull => ret (map fst notrun, conc)
-                 | JInt _ | JBool _ =>
-                     let k := py_int_value conc in
-                     let k' := if Z.leb k 0 then 1%Z else k in
-                     let avail := (k' - Z.of_nat nactive)%Z in
-                     ret (if Z.ltb 0 avail then map fst (firstn (Z.to_nat avail) notrun) else [],
-                          match conc with JInt _ => JInt k' | _ => if Z.leb k 0 then JInt 1 else conc end)
-                 | _ => raise (exn_type "'<=' not supported between instances of concurrency value and 'int'")
-                 end) ;;
+      chosen <- lift_res (choose_items conc (combine actions st_items)) ;;
       let '(acts, conc') := chosen in
       let delay' := match s_retry s with
                     | Some rr => Some (match rr_delay rr with
